@@ -398,6 +398,21 @@ def check(prop, tier):
             cls, mn = classify_crash(engine, variant, profile, seed, c["index"], outdir, "w%d" % c["worker"])
             if cls is None:
                 harness_problems.append("worker death at run %d: %s" % (c["index"], mn)); continue
+            if not cls.startswith("crash|"):
+                # the worker died, but the same run, reproduced and minimised in a fresh process, fails an ordinary oracle first
+                accepted = propArg.split(",")
+                if cls.split("|")[0] not in accepted:
+                    harness_problems.append("worker death at run %d reproduces as %s, which belongs to another property; replay %s" % (c["index"], cls, mn)); continue
+                dst = os.path.join(replay_dir, "%s_%s_%s_%s_s%d_i%d_%s.json" % (prop, engine, variant, profile, seed, c["index"], hashlib.sha1(cls.encode()).hexdigest()[:6]))
+                d = json.load(open(mn)); d["property"] = prop; d["accept_properties"] = propArg; d["class"] = cls; d["oracle"] = cls.split("|")[1] if "|" in cls else ""; d["detail"] = cls
+                d["found_by"] = {"seed": seed, "index": c["index"], "tier": tier, "via": "worker death"}
+                json.dump(d, open(dst, "w"))
+                failed, classes, crash, out = fresh_replay(dst, propArg)
+                if not failed or not any(viol_class(x) == cls for x in classes):
+                    harness_problems.append("minimised replay %s does not fail the same way in a fresh process" % dst); continue
+                if not any(v["class"] == cls for v in violations):
+                    violations.append({"class": cls, "replay": dst, "detail": cls})
+                continue
             if prop not in CRASH_CLAUSE:
                 harness_problems.append("crash class %s at run %d is not attributable to %s (no safety clause); replay %s" % (cls, c["index"], prop, mn)); continue
             v = {"prop": prop, "oracle": "crash", "sig": {"class": cls}, "detail": cls}
